@@ -27,8 +27,12 @@ def run(c):
         "goTicker's conveyor-full branch and goEraseHistoric's disk-limit branch are not stepped (real-time / deliberate drops); "
         "the first is covered by the -mode=conveyor real-time scenario and a generated decision-site fact",
         "disk cache record format, torn writes and read errors are property C09",
-        "generated seconds have different sizes (base bucket + t%3 rows, stored frame so the size is a function of the second: "
-        "SH.Gen.C01.secBase/secRow); at most 2 historic senders are busy at a time and each reuses ONE scratch pad for every second it "
+        "generated seconds are small buckets of an almost idle agent (two counter rows with random tag values, 1 + t%3 tags in the "
+        "second row) framed by the REAL compress.CompressAndFrame; the harness keeps the candidates whose frame has the stored length "
+        "(lz4 size >= raw size: ~99%; ~2.5% of them have lz4 size == raw size, counted in frame.lz4-equals-raw), so a second's size "
+        "stays a function of the second (SH.Gen.C01.secBase/secRow); buckets that lz4 shrinks are not generated in the stepped tier; "
+        "an INSERT row is recognised by its timestamp followed by an int32 marker tag; about 1 case in 12 is a long outage "
+        "(2*MaxConveyorDelay +-3 seconds on disk, two agent restarts with 0..2 pops in between, nothing acknowledged); at most 2 historic senders are busy at a time and each reuses ONE scratch pad for every second it "
         "reads from disk, as goSendHistoric does; a slow ClickHouse answer beyond ClickHouseTimeoutInsert (5 min) is not generated",
         "an INSERT counts as done iff the fake endpoint read the whole body and answered HTTP 200 (headers and texts do not count)",
         "the historic memory limit is a 50 MiB constant: the harness adds an exactly accounted ballast to historicBucketsDataSize "
@@ -95,7 +99,9 @@ META = {
              "popOldestHistoricSecondLocked, handleSendSourceBucket3, advanceRecentBuckets, goInsert -> sendToClickhouse against a fake "
              "ClickHouse) and on the compiled model, diffing every request, answer, INSERT body, queue, disk-cache and window state. The direct "
              "oracle evaluates the property itself on the real outputs: no discard answer without a successful INSERT body carrying the second "
-             "(or a legitimate rejection), no second leaving the agent without an acknowledgement, nothing silently lost at the end, and after "
+             "(or a legitimate rejection), no second leaving the agent without an acknowledgement, nothing silently lost at the end, and an "
+             "'undecodable, discard' answer to bytes the agent framed from a valid bucket is a violation (discard-of-valid-bucket), not a "
+             "deliberate rejection; held seconds include disk records not yet read back after a restart; after "
              "a fault-free continuation every held second inside the windows is in storage. Memory limit: historicBucketsDataSize equals the "
              "data really queued (appendHist_exact), so a 'memory limit' drop happens only when the queue really is over the limit "
              "(appendHist_drop_legit); diffed after every op and checked by the oracle (historic-size-accounting, false-memory-limit-drop). "
